@@ -15,11 +15,11 @@ func init() {
 		Rule: "grammar-directed random (path, document, decoding, options) triples: paths of depth <= 3 over every node kind, documents correlated by key alphabet, float64 and json.Number decodings, " +
 			"{vars, silent, tz, context zone} option sets, lax and strict; each real Query outcome is compared with the set of outcomes the reference evaluator allows over all object-member orders. " +
 			"Non-trivial: path has >= 2 nodes and the outcome is not an empty error-free result; distinct by (path text, document, decoding, options)",
-		Run:    runC01,
-		Replay: replayC01,
+		Run:          runC01,
+		Replay:       replayC01,
 		MinExercised: map[string]int64{"items": 5000, "class": 5000, "predcheck": 200},
 		Assumptions: []string{
-			"the reference evaluator (internal/model) encodes the documented rules; outcomes it cannot pin (object member order beyond the enumeration cap, non-canonical numeric strings, numbers outside int64/float64, strict array subscripts below .**) are skipped and counted",
+			"the reference evaluator (internal/model) encodes the documented rules; outcomes it cannot pin (object member order beyond the enumeration cap, non-canonical numeric strings, numbers outside int64/float64) are skipped and counted",
 			"quotients of integer operands may be truncated or exact; numbers are compared by exact value",
 		},
 	})
@@ -159,7 +159,7 @@ func modelVerdict(ec *ExecCase, o *h.Out) (verdict string, feat map[string]strin
 	}
 	if causes == nil && devUnspec {
 		// a recorded deviation leads the evaluation into territory the rules
-		// do not pin (e.g. address-derived ids, strict subscripts below .**):
+		// do not pin (e.g. address-derived ids):
 		// the outcome cannot be judged either way.
 		return "skip:known-deviation-then-unspecified", nil, ""
 	}
